@@ -120,6 +120,36 @@ def build_items(case: Case) -> list[Item]:
                     exp = canon.cerr(e)
                 m = f"(dumps {cfg} {ty} {structs.value_term(v, T)})"
                 items.append(Item(case, op, f"rb_eqb {m} {exp}", m, ("mutdump", d)))
+            elif op[0] == "assign":
+                # ("assign", data, pos, field index, seed): parse, assign one field a fresh value, dump
+                import random as _random
+
+                r = structs.parse(cs, case.tname, op[1], op[2])
+                if r[0] != "ok":
+                    items.append(Item(case, op, None, None, r, skipped="parse failed"))
+                    continue
+                v = r[1]
+                f = T.__fields__[op[3]]
+                try:
+                    if f.bits:
+                        from dissect.cstruct.types import Enum as _E, Flag as _F
+                        nb = _random.Random(op[4]).randrange(0, 1 << f.bits)
+                        nv = f.type(nb) if issubclass(f.type, (_E, _F)) else nb
+                    else:
+                        nv = structs.gen_py(f.type, _random.Random(op[4]))
+                except NotImplementedError as e:
+                    items.append(Item(case, op, None, None, None, skipped=str(e)))
+                    continue
+                try:
+                    before = v.dumps()
+                    setattr(v, f._name, nv)
+                    d = v.dumps()
+                    exp = f"(Ok {canon.cbytes(d)})"
+                except Exception as e:  # noqa: BLE001
+                    before, d = None, e
+                    exp = canon.cerr(e)
+                m = f"(dumps {cfg} {ty} {structs.value_term(v, T)})"
+                items.append(Item(case, op, f"rb_eqb {m} {exp}", m, ("assign", f, before, d)))
             elif op[0] == "construct":
                 # ("construct", seed, overflow): build a value directly (structs.gen_py), dump it
                 import random as _random
